@@ -42,8 +42,53 @@ def random_supported_circuit(rng, n_inputs=None, n_gates=None):
     outs = rng.sample(non_in, k)
     if rng.random() < 0.3:
         outs.append(non_in[-1])
+    if rng.random() < 0.2:
+        outs.insert(rng.randrange(len(outs) + 1), rng.choice(outs))     # an output listed twice
     return {'inputs': [l for l, t, _ in order if t == 'INPUT'], 'outputs': outs, 'gates': order,
             'users': list(users.items()), 'blocks': []}
+
+
+def absorption_circuit(rng):
+    """gates that EQUAL one of their cut leaves on every assignment (absorption: AND(a, OR(a, b)),
+    OR(a, AND(a, b)), XOR(XOR(a, b), b), NOT NOT a), also as outputs listed several times and next to ordinary
+    logic: minimize_subcircuits merges such a gate into the leaf without calling the solver"""
+    used, order = set(), []
+
+    def new(t, ops):
+        l = gen.fresh_label(rng, used)
+        used.add(l)
+        order.append((l, t, list(ops)))
+        return l
+    ins = [new('INPUT', []) for _ in range(rng.choice([2, 3, 3, 4]))]
+    avail = list(ins)
+    eq = []
+    for _ in range(rng.randint(1, 3)):
+        a, b = rng.sample(avail, 2)
+        k = rng.randrange(4)
+        if k == 0:
+            g = new('AND', [a, new('OR', [a, b])])
+        elif k == 1:
+            g = new('OR', [a, new('AND', rng.sample([a, b], 2))])
+        elif k == 2:
+            g = new('XOR', [new('XOR', [a, b]), b])
+        else:
+            g = new('NOT', [new('NOT', [a])])
+        eq.append(g)
+        avail.append(g)
+    others = []
+    for _ in range(rng.randint(0, 4)):
+        t = rng.choice(SUPPORTED)
+        ops = [rng.choice(avail)] if t == 'NOT' else rng.sample(avail, 2)
+        others.append(new(t, ops))
+        avail.append(others[-1])
+    outs = [rng.choice(eq)]
+    for _ in range(rng.randint(1, 3)):
+        outs.append(rng.choice(eq + others + [outs[0], outs[0]]))
+    users = {}
+    for l, t, ops in order:
+        for o in ops:
+            users.setdefault(o, []).append(l)
+    return {'inputs': ins, 'outputs': outs, 'gates': order, 'users': list(users.items()), 'blocks': []}
 
 
 def has_equivalent_gates(dump):
